@@ -14,31 +14,31 @@ import (
 
 // Side is the per-endpoint part of a case.
 type Side struct {
-	IdleMs    int      `json:"idle_ms"`              // Config.MaxIdleTimeout
-	KeepAlive string   `json:"keepalive"`            // "off" | "short" (< idle/2) | "long" (> idle)
-	Blocked   []string `json:"blocked,omitempty"`    // calls blocked when the cause occurs: read write accept acceptuni open openuni dgram
-	WriteUni  bool     `json:"write_uni,omitempty"`  // the blocked Write uses a unidirectional stream
-	CIDLen    int      `json:"cid_len"`              // Transport.ConnectionIDLength
-	ResetKey  bool     `json:"reset_key,omitempty"`  // Transport.StatelessResetKey set (always true for the server)
+	IdleMs    int      `json:"idle_ms"`             // Config.MaxIdleTimeout
+	KeepAlive string   `json:"keepalive"`           // "off" | "short" (< idle/2) | "long" (> idle)
+	Blocked   []string `json:"blocked,omitempty"`   // calls blocked when the cause occurs: read write accept acceptuni open openuni dgram
+	WriteUni  bool     `json:"write_uni,omitempty"` // the blocked Write uses a unidirectional stream
+	CIDLen    int      `json:"cid_len"`             // Transport.ConnectionIDLength
+	ResetKey  bool     `json:"reset_key,omitempty"` // Transport.StatelessResetKey set (always true for the server)
 }
 
 // Case is one generated scenario.
 type Case struct {
-	Cause   string `json:"cause"`   // close | idle | hstimeout | reset | forge | alert | trclose | cancel
-	By      string `json:"by"`      // "c" | "s": the endpoint that closes / whose transport is closed / that receives the forged packet
-	Phase   string `json:"phase"`   // handshake | edge | armed | transfer
-	Variant int    `json:"variant"` // cause specific (see runCase)
-	AtMs    int    `json:"at_ms"`   // delay of the cause after the calls were armed (post-handshake phases) or after the start (handshake phase)
-	RTTms   int    `json:"rtt_ms"`
-	HSIdleMs int   `json:"hs_idle_ms"` // Config.HandshakeIdleTimeout (both sides)
-	Code    uint64 `json:"code"`
-	Reason  string `json:"reason"`
-	C       Side   `json:"c"`
-	S       Side   `json:"s"`
-	DropCC  int    `json:"drop_cc,omitempty"` // number of datagrams carrying CONNECTION_CLOSE (from the closing side) that the network drops
-	Replay  int    `json:"replay,omitempty"`  // number of old datagrams replayed to the closing side right after it closed
-	XferDir string `json:"xfer_dir,omitempty"` // transfer phase: "c" or "s" writes the bulk stream
-	XferUni bool   `json:"xfer_uni,omitempty"`
+	Cause    string `json:"cause"`   // close | idle | hstimeout | reset | forge | alert | trclose | cancel
+	By       string `json:"by"`      // "c" | "s": the endpoint that closes / whose transport is closed / that receives the forged packet
+	Phase    string `json:"phase"`   // handshake | edge | armed | transfer
+	Variant  int    `json:"variant"` // cause specific (see runCase)
+	AtMs     int    `json:"at_ms"`   // delay of the cause after the calls were armed (post-handshake phases) or after the start (handshake phase)
+	RTTms    int    `json:"rtt_ms"`
+	HSIdleMs int    `json:"hs_idle_ms"` // Config.HandshakeIdleTimeout (both sides)
+	Code     uint64 `json:"code"`
+	Reason   string `json:"reason"`
+	C        Side   `json:"c"`
+	S        Side   `json:"s"`
+	DropCC   int    `json:"drop_cc,omitempty"`  // number of datagrams carrying CONNECTION_CLOSE (from the closing side) that the network drops
+	Replay   int    `json:"replay,omitempty"`   // number of old datagrams replayed to the closing side right after it closed
+	XferDir  string `json:"xfer_dir,omitempty"` // transfer phase: "c" or "s" writes the bulk stream
+	XferUni  bool   `json:"xfer_uni,omitempty"`
 	TruncDir string `json:"trunc_dir,omitempty"` // truncate one short-header datagram of this direction ...
 	TruncNth int    `json:"trunc_nth,omitempty"` // ... the n-th ...
 	TruncLen int    `json:"trunc_len,omitempty"` // ... to this many bytes (DESIGN section 7 suspect 9)
@@ -257,6 +257,10 @@ func normalize(c *Case) {
 }
 
 func (c *Case) classKey() string {
-	b := func(s Side) string { x := append([]string(nil), s.Blocked...); sort.Strings(x); return strings.Join(x, "+") }
+	b := func(s Side) string {
+		x := append([]string(nil), s.Blocked...)
+		sort.Strings(x)
+		return strings.Join(x, "+")
+	}
 	return fmt.Sprintf("%s/%s/%s/c[%s]/s[%s]", c.Cause, c.By, c.Phase, b(c.C), b(c.S))
 }
